@@ -835,7 +835,8 @@ def check(ck):
     okk = lib_writer
     for c in good:
         par = pm.get(c)
-        while isinstance(par, ast.Call) and A.call_attr(par) in ("list", "tuple") and par.args == [c]:
+        # (a dict built from the sorted items keeps their order)
+        while isinstance(par, ast.Call) and A.call_attr(par) in ("list", "tuple", "dict", "OrderedDict") and par.args == [c] and not par.keywords:
             c, par = par, pm.get(par)
         tgt = None
         scope = None
@@ -848,6 +849,8 @@ def check(ck):
             nm = par.targets[0].id
             for n_ in A.walk_body(nj.node):
                 it = n_.iter if isinstance(n_, (ast.comprehension, ast.For)) else None
+                if isinstance(it, ast.Call) and A.call_attr(it) in ("items", "keys") and not it.args and isinstance(A.call_recv(it), ast.Name):
+                    it = A.call_recv(it)
                 if isinstance(it, ast.Name) and it.id == nm:
                     tgt, scope = n_.target, (pm.get(n_) if isinstance(n_, ast.comprehension) else n_)
         if tgt is None or scope is None:
